@@ -1411,6 +1411,26 @@ theorem C11_identity_history_exact_partial (k : Kind) (ldc lrack : Nat) (sh nl p
     obtain ⟨ho, he⟩ := hx
     exact hcomp x ((hkn x).mpr ho) (expected_inList _ hwf _ he).2
 
+/-- The token-aware policy's OWN list (`t.hosts`: the hosts of the token ring and of every replica table it computes),
+for EVERY operation history over ANY host objects: no two entries share an address, and the list holds exactly the
+object that stands for each address by the history - the first one `AddHost` put there since `RemoveHost` of any object
+with that address last freed it (`taOwnerOf`; `HostUp` / `HostDown` do not touch it). -/
+theorem C11_identity_ta_hosts_by_history (k : Kind) (ldc lrack : Nat) (sh nl ps : Bool) (sess : Option Nat) (ops : List TAOp) :
+    let t := ops.foldl TA.apply (TA.new (Pol.new k ldc lrack) sh nl ps sess)
+    AddrNodup t.hosts ∧ ∀ x, x ∈ t.hosts ↔ taOwnerOf (evsOf ops) x.addr = some x := by
+  intro t
+  exact taOwner_run ops (TA.new (Pol.new k ldc lrack) sh nl ps sess) (fun _ => none)
+    (by simp [TA.new, AddrNodup]) (fun _ _ h => by cases h) (fun x => by simp [TA.new])
+
+example :
+    let ops := [TAOp.add ⟨1, 10, 0, 0, [100]⟩, .add ⟨2, 10, 1, 0, [200]⟩, .add ⟨3, 11, 0, 0, [300]⟩, .remove ⟨2, 10, 1, 0, [200]⟩]
+    let t := ops.foldl TA.apply (TA.new (Pol.new .dc 0 0) false true true)
+    -- the sibling in the other tier (object 2, remote DC) shares address 10: the own list refused it, its RemoveHost
+    -- takes object 1 out of the own list (and out of the ring), while the fallback's LOCAL list still holds object 1
+    t.hosts = [⟨3, 11, 0, 0, [300]⟩] ∧ t.pol.l0 = [⟨1, 10, 0, 0, [100]⟩, ⟨3, 11, 0, 0, [300]⟩] ∧ t.pol.l1 = [] ∧
+    taOwnerOf (evsOf ops) 10 = none := by
+  decide
+
 def cexN1 : Host := ⟨1, 10, 0, 0, []⟩   -- node 1, address 10 (port 9042)
 def cexN2 : Host := ⟨2, 10, 0, 0, []⟩   -- node 2, the SAME address (port 9043)
 def cexN3 : Host := ⟨3, 11, 0, 0, []⟩   -- node 3, its own address
